@@ -17,6 +17,7 @@ def main():
     for h, r in zip(hs, res):
         if "harness_error" in r:
             print("HARNESS ERROR", r["harness_error"]); return
+        h.finalize(r)
         e = C.encode_obs(r, h.it)
         encs.append(e)
         ncrash += 1 if r["crash"] else 0
